@@ -49,8 +49,23 @@ fn std_show(v: &rooc::verif_hooks::StandardView) -> String {
 }
 
 /// all cases of one standard-form problem
+thread_local! {
+    /// the standard form a problem was MEANT to be (what was handed to `StandardLinearModel::new`), recorded by
+    /// `std_from`: the reference of the model request and of the oracle must not be what the constructor made of it
+    /// (a constructor that drops or changes rows would otherwise go unnoticed on the tableau side)
+    static INTENDED: std::cell::RefCell<Option<rooc::verif_hooks::StandardView>> = std::cell::RefCell::new(None);
+}
+
 pub fn problem(sm: &StandardLinearModel, tol: f64, tags: &[String], prefer: &[usize], cases: &mut Vec<Case>) {
-    let view = rooc::verif_hooks::standard_view(sm);
+    let built = rooc::verif_hooks::standard_view(sm);
+    let intended = INTENDED.with(|c| c.borrow_mut().take());
+    // (only the record of THIS model: lists of pre-built models consume a stale record harmlessly)
+    let view = match intended {
+        Some(i) if i.variables == built.variables && i.objective_offset.to_bits() == built.objective_offset.to_bits()
+            && i.flip_objective == built.flip_objective
+            && i.objective.iter().map(|x| x.to_bits()).eq(built.objective.iter().map(|x| x.to_bits())) => i,
+        _ => built,
+    };
     let ssx = c13::std_sx(&view);
     let show = std_show(&view);
     let tnum = gen_std::num(tol);
@@ -177,7 +192,14 @@ pub fn problem(sm: &StandardLinearModel, tol: f64, tags: &[String], prefer: &[us
 fn std_from(obj: Vec<f64>, rows: Vec<(Vec<f64>, f64)>, flip: bool, offset: f64) -> StandardLinearModel {
     let n = obj.len();
     let vars = (0..n).map(|i| format!("v{}", i)).collect();
-    let cons = rows.into_iter().map(|(c, b)| EqualityConstraint::new(c, b)).collect();
+    let cons: Vec<EqualityConstraint> = rows.into_iter().map(|(c, b)| EqualityConstraint::new(c, b)).collect();
+    let vars: Vec<String> = vars;
+    let mut o = obj.clone(); o.resize(n, 0.0);
+    let intended = rooc::verif_hooks::StandardView {
+        variables: vars.clone(), objective: o, objective_offset: offset, flip_objective: flip,
+        rows: cons.iter().map(|c| { let mut v = c.coefficients().clone(); v.resize(n, 0.0); (v, c.rhs()) }).collect(),
+    };
+    INTENDED.with(|c| *c.borrow_mut() = Some(intended));
     StandardLinearModel::new(obj, cons, vars, offset, flip)
 }
 
@@ -195,6 +217,13 @@ fn direct(r: &mut Rng, class: DataClass) -> (StandardLinearModel, Vec<String>) {
         2 if m >= 2 => { let src = rows[0].clone(); rows[1] = (src.0, src.1 + 1.0); tags.push("shape:inconsistent-rows".into()); }
         3 if m >= 3 => { let s: Vec<f64> = (0..n).map(|j| rows[0].0[j] + rows[1].0[j]).collect(); rows[2] = (s, rows[0].1 + rows[1].1); tags.push("shape:sum-row".into()); }
         4 => { for row in rows.iter_mut() { if r.chance(1, 2) { row.1 = 0.0; } } tags.push("shape:zero-rhs".into()); }
+        6 | 7 => {
+            // a row in which no variable appears: `0 = b` (b != 0: the problem is infeasible; b = 0: redundant)
+            let i = r.below(m);
+            let b = if r.chance(3, 4) { [3.0, 1.0, 0.5, 2.0][r.below(4)] } else { 0.0 };
+            rows[i] = (vec![0.0; n], b);
+            tags.push(if b != 0.0 { "shape:empty-row-nonzero-rhs".into() } else { "shape:empty-row-zero-rhs".into() });
+        }
         5 => { // slack-like identity block: direct start
             for (i, row) in rows.iter_mut().enumerate() { for k in 0..m { if n >= m { row.0[n - m + k] = if k == i { 1.0 } else { 0.0 }; } } }
             tags.push("shape:identity-block".into());
@@ -369,6 +398,15 @@ pub fn generate(seed: u64, n: usize, thorough: bool, _corpus: Option<&str>) -> V
     // seeded known defect (liveness): two ratios 9e-6 apart count as a tie, the row with the larger one is kept
     problem(&std_from(vec![-2.0, 0.0, 0.0], vec![(vec![10000.0, 1.0, 0.0], 200000000000.09998), (vec![10000.0, 0.0, 1.0], 200000000000.00998)], false, 0.0),
         tol, &["stream:seeded-known-defect".to_string(), "seeded:ratio-tie-within-tolerance".to_string()], &[], &mut cases);
+    // rows in which no variable appears: `0 = 3` makes the problem infeasible (`Infesible` expected), `0 = 0` is redundant
+    for (rows, tag) in [
+        (vec![(vec![1.0, 1.0], 2.0), (vec![0.0, 0.0], 3.0)], "empty-row:nonzero-rhs"),
+        (vec![(vec![0.0, 0.0], 3.0)], "empty-row:nonzero-rhs"),
+        (vec![(vec![1.0, 1.0], 2.0), (vec![0.0, 0.0], 0.0)], "empty-row:zero-rhs"),
+        (vec![(vec![1.0, -1.0], 0.0), (vec![0.0, 0.0], 0.5), (vec![2.0, 1.0], 4.0)], "empty-row:nonzero-rhs"),
+    ] {
+        problem(&std_from(vec![1.0, -1.0], rows, false, 0.0), tol, &["stream:empty-row".to_string(), tag.to_string()], &[], &mut cases);
+    }
     // ---- C13's engine: every kind pattern of small models, standardised by the real code
     let (maxv, maxr) = if thorough { (3, 3) } else { (2, 2) };
     for nv in 1..=maxv {
